@@ -142,4 +142,23 @@ TopCheck(c, cs, i) ==
   ELSE IF Gap(c, TopAt(c, cs, i - 1), TopAt(c, cs, i)) THEN "gap"
   ELSE Struct(c, cs, i)
 
+\* C15, second clause: the look-back precondition at one append.  pre is the candle list of one
+\* manager before the call, mid the list the manager hands to the indicators (after collapsing,
+\* converting and trimming, readings carried over -- wiped where a bucket was merged into again),
+\* drop the number of candles trimmed from the front.
+\* first position of mid whose candle is not an unchanged survivor of the pre-state: new candles, and
+\* a forming bucket that was merged into again (even when the merge left its OHLCV as it was)
+FirstNew(pre, mid, drop) ==
+  LET S == {p \in 1..Len(mid) : p + drop > Len(pre) \/ pre[p + drop] # mid[p]}
+  IN IF S = {} THEN Len(mid) + 1 ELSE CHOOSE p \in S : \A p2 \in S : p <= p2
+
+\* the property's own wording: each newly added candle has its look-back inside the window that
+\* survives -- Look(c) survivors in front of the first new candle, the last of them warmed up
+SurvOK(c, pre, mid, drop) ==
+  LET f == FirstNew(pre, mid, drop)
+  IN \/ f > Len(mid)
+     \/ /\ f >= 2 /\ f - 1 >= Look(c)
+        /\ f - 1 + drop <= Len(pre)
+        /\ WarmedOn(c, pre[f - 1 + drop])
+
 =============================================================================
